@@ -57,6 +57,23 @@ pub fn sink_matrix(ctx: &Ctx, who: &str, a: &dyn Aml, replay: &dyn Fn() -> Value
             fail("Sdt sink", &s.as_slice()[36..]);
         }
     }
+    if v1.len() <= 2048 {
+        // the generic table as a sink, from a non-initial state: streaming the object must leave the same table as
+        // appending its bytes as one slice (only the concatenation matters)
+        let mk = || {
+            let mut s = Sdt::new(*b"SINK", 40, 1, *b"VERIF1", *b"VERIFTBL", 1);
+            s.write_u32(36, 0x0403_0201);
+            s.append_slice(&[0xaa, 0x55, 0x01]);
+            s.write_u8(35, 0xee);
+            s
+        };
+        let (mut s1, mut s2) = (mk(), mk());
+        a.to_aml_bytes(&mut s1);
+        s2.append_slice(&v1);
+        if s1.as_slice() != s2.as_slice() {
+            fail("Sdt sink (after writes) vs append_slice", s1.as_slice());
+        }
+    }
     let mut pb = PackageBuilder::new();
     a.to_aml_bytes(&mut pb);
     let p = ser(&pb);
